@@ -210,3 +210,77 @@ package proxy
 //@   at-call ToLower as low: assert streq(arg0, res(hs))
 //@   ensures [no-vhost] p.virtualHost == nil ==> len(result) == 0
 //@   ensures [cleaned-lowercase-host] p.virtualHost != nil ==> called(low) && streq(result, res(low))
+
+// ---- C11 / C12: player and server registries ---------------------------------------------------------------
+// All registry maps are touched (read, written, ranged over, measured) only while their lock is held; map objects that
+// belong to a guarded field stay guarded after the field has been read (ranging over them after Unlock is an error).
+//@ guarded_by Proxy.muP : playerNames, playerIDs
+//@ guarded_by Proxy.muS : servers, configServers
+//@ guarded_by players.mu : list
+// A player's UUID and name are fixed at construction (the profile is never replaced).
+//@ pure func (*connectedPlayer).ID
+//@ pure func (*connectedPlayer).Username
+
+// Registration: entries are written only under the exclusive lock, only for the player being registered, under its own UUID
+// and lower-cased name; without kick mode only when neither key is taken; in kick mode only when no session with that UUID
+// is registered any more (the older one is told to disconnect with the lock released, then the check is repeated).
+// Every path releases the lock.
+//@ func (*Proxy).registerConnection
+//@   props C11
+//@   loop 1: invariant held(p.muP) == none
+//@   at-call Disconnect as kick: assert [kick-without-lock] held(p.muP) == none && c.OnlineModeKickExistingPlayers
+//@   at-call mapupdate:playerIDs as putID: assert [own-uuid-entry] held(p.muP) == wlocked && arg0 == p.playerIDs && arg2 == player && arg1 == player.ID() && !has(p.playerIDs, player.ID())
+//@   at-call mapupdate:playerNames as putName: assert [own-name-entry] held(p.muP) == wlocked && arg0 == p.playerNames && arg2 == player && streq(arg1, strings.ToLower(player.Username())) && called(putID)
+//@   at-call mapupdate:playerNames: assert [no-duplicate-name-without-kick] c.OnlineModeKickExistingPlayers || !has(p.playerNames, strings.ToLower(player.Username()))
+//@   ensures [registered-both-ways-or-refused] result == called(putName)
+
+// Teardown removes only this connection's own registration, never another player's.
+//@ func (*Proxy).unregisterConnection
+//@   props C11
+//@   at-call delete:playerIDs as delID: assert [removes-own-uuid-entry-only] held(p.muP) == wlocked && arg0 == p.playerIDs && arg1 == player.ID() && p.playerIDs[arg1] == player
+//@   at-call delete:playerNames as delName: assert [removes-own-name-entry-only] held(p.muP) == wlocked && arg0 == p.playerNames && p.playerNames[arg1] == player
+//@   ensures [found-means-was-registered] found == called(delID)
+
+//@ func (*Proxy).canRegisterConnection
+//@   props C11
+//@ func (*Proxy).Player
+//@   props C11 C12
+//@ func (*Proxy).playerByName
+//@   props C11 C12
+//@ func (*Proxy).PlayerCount
+//@   props C11 C12
+//@ func (*connectedPlayer).teardown
+//@   props C11
+//@   at-call unregisterConnection as unreg: assert [tears-down-itself] arg1 == p
+
+// Listings are built inside one critical section of the registry's lock.
+//@ func (*Proxy).Players
+//@   props C12
+//@   at-call append: assert [snapshot-under-lock] held(p.muP) != none
+//@ func (*Proxy).DisconnectAll
+//@   props C12
+//@   at-call append: assert [snapshot-under-lock] held(p.muP) != none
+//@ func (*Proxy).Servers
+//@   props C12
+//@   at-call append: assert [snapshot-under-lock] held(p.muS) != none
+//@ func (*Proxy).server
+//@   props C12
+//@ func (*Proxy).Register
+//@   props C12
+//@   at-call mapupdate: assert [register-under-lock-if-absent] held(p.muS) == wlocked && arg0 == p.servers && !has(p.servers, arg1)
+//@ func (*Proxy).Unregister
+//@   props C12
+//@   at-call delete: assert [unregister-under-lock] held(p.muS) == wlocked
+//@ func (*players).Len
+//@   props C12
+//@ func (*players).Range
+//@   props C12
+//@   at-call append: assert [snapshot-under-lock] held(p.mu) != none
+//@   at-call dyn.fn: assert [callback-without-lock] held(p.mu) == none
+//@   loop 2: invariant rangeindex >= -1 && rangeindex < len(list) && held(p.mu) == none
+//@ func (*players).add
+//@   props C12
+//@   loop 1: invariant rangeindex >= -1 && rangeindex < len(players) && held(p.mu) == wlocked
+//@ func (*players).remove
+//@   props C12
+//@   loop 1: invariant rangeindex >= -1 && rangeindex < len(players) && held(p.mu) == wlocked
